@@ -14,6 +14,7 @@ use rsdd::builder::BottomUpBuilder;
 use rsdd::repr::{BddPtr, Cnf, DDNNFPtr, Literal, SddPtr, VTree, VarLabel, VarOrder, WmcParams};
 use rsdd::util::semirings::{Complex, ExpectedUtility, FiniteField, Polynomial, RationalSemiring, RealSemiring, Semiring};
 use rsdd_verif_harness::bddprog::*;
+use rsdd_verif_harness::sddprog::*;
 use rsdd_verif_harness::*;
 use std::collections::HashMap;
 
@@ -107,53 +108,6 @@ fn dep_sum(t: &Table, levels: &[usize], k: usize, fixed: usize, w: &[(i128, i128
 
 // ---- the same function as an SDD (random vtrees) and as a decision-DNNF: the counts with
 // normalised weights must be the same sums (independence of representation)
-fn rand_vtree(rng: &mut Rng, vars: &[usize]) -> VTree {
-    if vars.len() == 1 {
-        return VTree::new_leaf(VarLabel::new(vars[0] as u64));
-    }
-    let k = rng.range(1, vars.len() - 1);
-    VTree::new_node(Box::new(rand_vtree(rng, &vars[..k])), Box::new(rand_vtree(rng, &vars[k..])))
-}
-fn exec_sdd<'a>(b: &'a CompressionSddBuilder<'a>, prog: &Prog) -> Option<Vec<SddPtr<'a>>> {
-    let mut pool: Vec<SddPtr<'a>> = vec![];
-    for op in &prog.ops {
-        let g = |i: &usize| -> SddPtr<'a> { *pool.get(*i).unwrap_or(&SddPtr::PtrFalse) };
-        let r = match op {
-            Op::Const(c) => if *c { SddPtr::PtrTrue } else { SddPtr::PtrFalse },
-            Op::Var(v, p) => b.var(VarLabel::new(*v), *p),
-            Op::Neg(i) => b.negate(g(i)),
-            Op::And(i, j) => b.and(g(i), g(j)),
-            Op::Or(i, j) => b.or(g(i), g(j)),
-            Op::Xor(i, j) => b.xor(g(i), g(j)),
-            Op::Iff(i, j) => b.iff(g(i), g(j)),
-            Op::Ite(i, j, k) => b.ite(g(i), g(j), g(k)),
-            Op::Cond(i, v, val) => b.condition(g(i), VarLabel::new(*v), *val),
-            Op::CondModel(i, lits) => lits.iter().fold(g(i), |acc, (v, val)| b.condition(acc, VarLabel::new(*v), *val)),
-            Op::Exists(i, v) => b.exists(g(i), VarLabel::new(*v)),
-            Op::Compose(i, v, j) => b.compose(g(i), VarLabel::new(*v), g(j)),
-            Op::AndLst(l) => l.iter().fold(SddPtr::PtrTrue, |acc, i| b.and(acc, g(i))),
-            Op::OrLst(l) => l.iter().fold(SddPtr::PtrFalse, |acc, i| b.or(acc, g(i))),
-            Op::NewVar(_) => return None,
-        };
-        pool.push(r);
-    }
-    Some(pool)
-}
-fn sdd_eval(p: SddPtr, a: usize) -> bool {
-    match p {
-        SddPtr::PtrTrue => true,
-        SddPtr::PtrFalse => false,
-        SddPtr::Var(l, b) => ((a >> l.value()) & 1 == 1) == b,
-        SddPtr::BDD(n) | SddPtr::ComplBDD(n) => {
-            let x = if (a >> n.label().value()) & 1 == 1 { sdd_eval(n.high(), a) } else { sdd_eval(n.low(), a) };
-            x != matches!(p, SddPtr::ComplBDD(_))
-        }
-        SddPtr::Reg(o) | SddPtr::Compl(o) => {
-            let x = o.iter().any(|e| sdd_eval(e.prime(), a) && sdd_eval(e.sub(), a));
-            x != matches!(p, SddPtr::Compl(_))
-        }
-    }
-}
 fn ff_count_any<'a, const P: u128, D: DDNNFPtr<'a>>(p: D, codes: &[u64]) -> u128 {
     let params: WmcParams<FiniteField<P>> = WmcParams::new(HashMap::from_iter(codes.iter().enumerate().map(|(v, c)| {
         let hi = hi_of_code(*c, P);
